@@ -51,23 +51,34 @@ class P(Property):
     extract_v = 'Extract/ExtractC05.v'
     driver_ml = 'C05_driver.ml'
     harness_bin = 'c05'
-    rule = ('every case runs the REAL driver (server::Connection / client::Connection over SimQuic) and 1..3 real request-stream '
-            'handles on separate OS threads; the pre-emption callback hands a baton so that the order of the shared-state operations '
-            '(driver: register, check; stream: store, wake) is exactly the schedule.  Enumerated: ALL schedules (orderings of the turns '
-            'at the blocking pre-emption points driver:before_register / after_register / after_check_none and stream:after_store; '
-            'stream:after_wake does not block since only the return follows it) of one driver poll with k stream tasks, for the driver '
-            'poll shapes pce (poll_connection_error alone, 4 turns) and full (server poll_accept_request_stream / client poll_close: '
-            'three poll_connection_error calls, 10 turns; 7 when the driver detects an error of its own on the control stream or from the '
-            'transport), both sides, stream error kinds fu/fe/se/connection loss (application close, timeout, transport-internal) each '
-            'stream raising a different code: k=1,2 exhaustively in quick; k=3 exhaustively for pce and 30000 seeded random schedules '
-            'per full configuration in thorough.  Every case continues with later calls on every handle (driver polled twice more, '
-            'every stream handle failing a read and then a write).  non-trivial = distinct cases in which a stream turn falls strictly between two '
-            'driver turns (the tasks really interleave inside the poll)')
-    partial_note = ('memory ordering below the linearizability of OnceLock / AtomicWaker is trusted, not modelled; the driver is one task '
-                    '(one waker); what a driver poll does between its poll_connection_error calls is abstracted to: more such calls, at '
-                    'most one self-detected error, then Pending / Ready')
+    rule = ('every case runs the REAL driver (server::Connection / client::Connection over SimQuic) and 1..3 real handles on separate OS '
+            'threads; the pre-emption callback hands a baton so that the order of the shared-state operations (driver: register, check; '
+            'stream: store, wake) is exactly the schedule.  Enumerated: ALL schedules (orderings of the turns at the blocking points '
+            'driver:before_register / after_register / after_check_none and stream:after_store; stream:after_wake does not block since only '
+            'the return follows it) of one driver poll -- or two, each with a waker of its own -- with k raising tasks, for the poll shapes '
+            'pce (poll_connection_error alone) and full (server poll_accept_request_stream / client poll_close: three '
+            'poll_connection_error calls; the driver detecting an error of its own after the 2nd or 4th: control stream closed, second '
+            'SETTINGS, missing SETTINGS, GOAWAY id increase, lost transport), both sides.  Raising handles / APIs: RequestStream read '
+            '(poll_recv_data, recv_response, poll_recv_trailers) meeting CANCEL_PUSH, malformed GOAWAY, forbidden SETTINGS, a frame cut by '
+            'FIN (UnexpectedEnd arm), a bad field section (QPACK 0x200, also in RequestResolver::resolve_request), a lost transport '
+            '(application close / timeout / transport-internal); writes on a lost transport (send_data, send_trailers, finish, '
+            'send_response); both halves of split(); SendRequest::send_request on a lost transport and the drop of the last SendRequest '
+            '(H3_NO_ERROR); connection already closing (peer GOAWAY processed / own shutdown()) before the error.  k=1,2 exhaustively in '
+            'quick (schedule sets above 20000 are sampled: none in quick); thorough adds k=3 (exhaustive for pce, 30000 seeded random '
+            'schedules per full configuration), two scheduled polls for full, more kind combinations.  Every case first checks that each '
+            'handle carries the driver\'s SharedState (pointer identity) and continues with later calls on every handle: driver polled '
+            'again, driver shutdown() on the working transport, every stream handle reads then writes on the lost transport, driver shutdown() again, driver polled a last time; all close() '
+            'calls are compared.  non-trivial = distinct cases in which a stream turn falls strictly between two driver turns')
+    partial_note = ('memory ordering below the linearizability of OnceLock / AtomicWaker is trusted, not modelled; the driver is one task; '
+                    'what a driver poll does between its poll_connection_error calls is abstracted to: more such calls, at most one '
+                    'self-detected error, then Pending / Ready; shutdown() is its leading get_conn_error guard followed by a GOAWAY write that '
+                    'the transport accepts or refuses (scheduled interleavings of shutdown itself are proved, not run: it has no '
+                    'pre-emption point)')
     trusted_extra = ['std::sync::OnceLock::get_or_init and futures_util AtomicWaker::{register, wake} are atomic (linearizable) operations',
-                     'the harness scheduler (baton over Mutex+Condvar, one OS thread per task) and SimQuic']
+                     'the harness scheduler (baton over Mutex+Condvar, one OS thread per task) and SimQuic',
+                     'gen_sharederr.py: every statement of the anchored functions and every match arm must full-match a known shape at brace '
+                     'depth 0 (anything else is AnchorLost = violation); call sites of set_conn_error / the cell / the waker and every '
+                     'initialiser of a shared-state field are enumerated crate-wide (h3, h3-datagram, h3-webtransport)']
 
     def configs(self, tier):
         """(side, drv, np, derr, loss, closing, k, serr)"""
@@ -100,7 +111,7 @@ class P(Property):
                             ('-', 'x777', 2, 'wd,wt'), ('-', 'x777', 2, 'wf,wr' if S else 'wf,l'),
                             ('-', 'x777', 2, 'xfu,xw'), ('-', 't', 2, 'xw,xl')]
                     if not S:
-                        fam += [('-', '-', 2, 'dr,fu'), ('-', 'x777', 2, 'rq,l')]
+                        fam += [('-', '-', 2, 'dr,fu'), ('-', 'x777', 2, 'rq,l'), ('-', 't', 2, 'rq,rq')]
                 if F:
                     fam += [('cms', '-', 1, 'fu'), ('cid', '-', 1, 'fu'), ('-', 'x777', 1, 'xw'), ('-', '-', 1, 'qp')]
                     if not S:
@@ -163,7 +174,7 @@ class P(Property):
             return False
         x = s['d2']
         # every handle reports the single outcome, on every later call; close exactly as the outcome demands
-        for key in ('keys', 's1', 'd2', 's2', 's3', 'd4', 'd3', 'close'):
+        for key in ('keys', 's1', 'd2', 'd2s', 's2', 's3', 'd4', 'd3', 'close'):
             if s[key] != '*' and o.get(key) != s[key]:
                 return False
         # the scheduled driver poll either reports the outcome or parks -- then it must have been woken
